@@ -434,7 +434,9 @@ class BytesDataType(ElementaryDataType):
 
     @classmethod
     def _encode(cls, value: bytes, *args, **kwargs) -> bytes:
-        return value[: cls.size] if cls.size != -1 else value[:]
+        if cls.size != -1 and len(value) < cls.size:
+            raise DataError(f"Not enough bytes, expected {cls.size}, got {len(value)}")
+        return bytes(value[: cls.size] if cls.size != -1 else value[:])
 
     @classmethod
     def _decode(cls, stream: BytesIO) -> bytes:
